@@ -13,7 +13,7 @@ import valgen
 import xv
 from xv import log
 
-CORPUS_VERSION = "17"
+CORPUS_VERSION = "19"
 
 BOUNDARY = [0, 1, 2, 3, 0xffff, 0x10000, 0x7fffffff, 0x80000000, 0xfffffffe, 0xffffffff]
 
@@ -51,7 +51,7 @@ def wrap_counts(actual, rng, tier):
             for j in (0, 1, actual):
                 vals.add((k * 2 ** s + j) % 2 ** 32)
     vals = sorted(vals)
-    return vals if tier != "quick" else rng.sample(vals, 4)
+    return rng.sample(vals, 10) if tier != "quick" else rng.sample(vals, 4)
 
 
 class DenseRng(random.Random):
@@ -106,7 +106,7 @@ def quick_specs(seed, tier):
         n_random = 30
     else:
         picked = m
-        n_random = 400
+        n_random = 150
     out = [("matrix", s) for s in picked]
     for i in range(n_random):
         r = random.Random(seed * 7919 + i)
@@ -163,7 +163,7 @@ def quick_specs(seed, tier):
 def gen_cases(rng, cx, ast, types, tier, valid_only=False):
     """returns list of dict(type, off, input(bytes), kind, expect(optional), x(optional))"""
     cases = []
-    nvals = 2 if tier == "quick" else 8
+    nvals = 2 if tier == "quick" else 5
     for ty in types:
         t = cx.types.get(ty)
         picks = [None] * nvals
@@ -194,8 +194,8 @@ def gen_cases(rng, cx, ast, types, tier, valid_only=False):
                           "expect": valgen.expected_line(x, off)})
             # strict prefixes: every byte-granular one when short, sampled when long
             cuts = list(range(len(e)))
-            if len(cuts) > (12 if tier == "quick" else 200):
-                cuts = sorted(rng.sample(cuts, 12 if tier == "quick" else 200))
+            if len(cuts) > (12 if tier == "quick" else 60):
+                cuts = sorted(rng.sample(cuts, 12 if tier == "quick" else 60))
             for c in cuts:
                 cases.append({"type": ty, "off": 0, "input": e[:c], "kind": "prefix", "full": len(e)})
             if valid_only:
@@ -203,10 +203,10 @@ def gen_cases(rng, cx, ast, types, tier, valid_only=False):
             # boundary values in every word
             nwords = len(e) // 4
             widx = list(range(nwords))
-            if len(widx) > (6 if tier == "quick" else 64):
-                widx = sorted(rng.sample(widx, 6 if tier == "quick" else 64))
+            if len(widx) > (6 if tier == "quick" else 24):
+                widx = sorted(rng.sample(widx, 6 if tier == "quick" else 24))
             for w in widx:
-                vals = BOUNDARY if tier != "quick" else rng.sample(BOUNDARY, 2)
+                vals = rng.sample(BOUNDARY, 5) if tier != "quick" else rng.sample(BOUNDARY, 2)
                 for v in vals:
                     m = e[:4 * w] + struct.pack(">I", v) + e[4 * w + 4:]
                     if m != e:
@@ -264,7 +264,7 @@ def gen_cases(rng, cx, ast, types, tier, valid_only=False):
         if valid_only:
             continue
         # arbitrary word sequences
-        for _ in range(3 if tier == "quick" else 20):
+        for _ in range(3 if tier == "quick" else 8):
             n = rng.choice([0, 1, 2, 3, 5, 8, 16])
             ws = b"".join(struct.pack(">I", rng.choice(BOUNDARY + [rng.getrandbits(32), 4, 5, 8])) for _ in range(n))
             cases.append({"type": ty, "off": 0, "input": ws, "kind": "random"})
@@ -366,6 +366,22 @@ def over_max_value(cx, ty, rng, excess=1):
     return x
 
 
+_GEN_CTX = None
+
+
+def _gen_one(o):
+    seed, tier, specs, types = _GEN_CTX
+    i = o["index"]
+    rng = random.Random(seed * 1000003 + i * 31 + 5)
+    cx = valgen.Ctx(o["ast"])
+    cs = gen_cases(rng, cx, o["ast"], types[i], tier, valid_only=(specs[i][0] == "fixed_validonly"))
+    if specs[i][0] == "elem":
+        cs += dense_cases(rng, cx, types[i], tier)
+    for c in cs:
+        c["spec"] = i
+    return cs
+
+
 def build(tier, seed):
     key = "%s_%s_%s_%d_%s" % (xv.src_hash(), tools_hash(), tier, seed, CORPUS_VERSION)
     path = os.path.join(xv.WORK, "cache", "corpus_%s.pkl" % key)
@@ -393,17 +409,14 @@ def build(tier, seed):
     rng = random.Random(seed * 31 + 5)
     allcases = []
     failed_idx = set(i for i, _ in failed)
-    for o in obs:
-        i = o["index"]
-        if i not in types or i in failed_idx:
-            continue
-        cx = valgen.Ctx(o["ast"])
-        cs = gen_cases(rng, cx, o["ast"], types[i], tier, valid_only=(specs[i][0] == "fixed_validonly"))
-        if specs[i][0] == "elem":
-            cs += dense_cases(rng, cx, types[i], tier)
-        for c in cs:
-            c["spec"] = i
-        allcases += cs
+    todo = [o for o in obs if o["index"] in types and o["index"] not in failed_idx]
+    # one PRNG per specification (derived from the seed), so the work can be spread over processes
+    global _GEN_CTX
+    _GEN_CTX = (seed, tier, specs, types)
+    import multiprocessing
+    with multiprocessing.get_context("fork").Pool(16) as pool:
+        for cs in pool.imap(_gen_one, todo, chunksize=4):
+            allcases += cs
     allcases += special_cases(obs, types, failed_idx, rng)
     lines = xv.run_runner(exe, ["%d %s %d %s" % (c["spec"], c["type"], c["off"], c["input"].hex()) for c in allcases])
     # metamorphic context: every hostile input the decoder ACCEPTS is decoded again at another
